@@ -136,6 +136,8 @@ fn mimes() -> Vec<Option<String>> {
         Some("application/x-foo+bar; a=b".into()),
         Some("image/svg+xml".into()),
         Some("text/plain; charset=\"utf-8\"".into()),
+        Some("multipart/mixed; boundary=AaB03x".into()),
+        Some("application/x-backup; Volume=DiskA; profile=\"urn:X#Compacted\"".into()),
     ]
 }
 
